@@ -353,6 +353,7 @@ def run(run, ix, tier):
     # L-R1 (shared with C07): repr at mp.dps > 4300 prints more digits than int() accepts in one piece
     from .c07 import check_literal_length
     check_literal_length(run, ix)
+    check_numeral_size_hint(run, ix)
 
 
 # ---------------------------------------------------------------------------------------------
@@ -502,6 +503,72 @@ class DigitFlow(object):
             return False
         return True
 
+    @staticmethod
+    def kind_is_bound(k):
+        return k in ('L', 'U')
+
+    def exact_choice(self, st, env):
+        """`if <cap>: ...; if lhs >= rhs: digits, exponent = <upper digits>; break` -- the loop is left after an
+        EXACT comparison of the value with the decimal the upper bound reached: every statement of the block is
+        Python integer arithmetic (no rounding kernel, no to_fixed, no float), the comparison selects the upper
+        candidate exactly when the value is not below it, and otherwise the lower bound's digits stay."""
+        body = st.body
+        if not body or not isinstance(body[-1], ast.Break):
+            return None
+        for x in ast.walk(ast.Module(body=body, type_ignores=[])):
+            if isinstance(x, ast.Call):
+                fn = norm(x.func)
+                if fn in ROUNDERS or fn in ('to_fixed', 'float', 'math.log') or fn.startswith(('mpf_', 'from_')):
+                    return None
+            if isinstance(x, ast.BinOp) and isinstance(x.op, (ast.Div,)):
+                return None
+            if isinstance(x, ast.Constant) and isinstance(x.value, float):
+                return None
+        sel = [x for x in body if isinstance(x, ast.If) and not x.orelse and len(x.body) == 1
+               and isinstance(x.body[0], ast.Assign) and isinstance(x.body[0].value, ast.Tuple)]
+        if len(sel) != 1:
+            return None
+        t = sel[0].test
+        if not (isinstance(t, ast.Compare) and len(t.ops) == 1 and isinstance(t.ops[0], (ast.GtE, ast.LtE))):
+            return None
+        asg = [a for a in sel[0].body if isinstance(a, ast.Assign)]
+        if len(asg) != 1 or len(sel[0].body) != 1 or not isinstance(asg[0].value, ast.Tuple):
+            return None
+        srcs = [self.kind(e, env) for e in asg[0].value.elts]
+        if 'U' not in [k if isinstance(k, str) else k[0] for k in srcs]:
+            return None
+        # the candidate that is compared must be made from the same upper digits
+        names_in_block = {n.id for x in body for n in ast.walk(x) if isinstance(n, ast.Name)}
+        upper = {n.id for e in asg[0].value.elts for n in ast.walk(e) if isinstance(n, ast.Name)}
+        if not (upper & names_in_block):
+            return None
+        # direction: value >= candidate selects the upper digits
+        val_side = t.left if isinstance(t.ops[0], ast.GtE) else t.comparators[0]
+        cand_side = t.comparators[0] if isinstance(t.ops[0], ast.GtE) else t.left
+
+        def mentions(e, what, depth=0):
+            for n in ast.walk(e):
+                if isinstance(n, ast.Name):
+                    if n.id in what:
+                        return True
+                    if depth < 3:
+                        for a in body:
+                            if isinstance(a, (ast.Assign, ast.AugAssign)):
+                                tg = a.targets[0] if isinstance(a, ast.Assign) else a.target
+                                if isinstance(tg, ast.Name) and tg.id == n.id and a.value is not e and \
+                                        mentions(a.value, what, depth + 1):
+                                    return True
+                            if isinstance(a, ast.If):
+                                for b2 in a.body + a.orelse:
+                                    if isinstance(b2, ast.AugAssign) and isinstance(b2.target, ast.Name) and \
+                                            b2.target.id == n.id and mentions(b2.value, what, depth + 1):
+                                        return True
+            return False
+        udigits = {n.id for n in ast.walk(asg[0].value.elts[0]) if isinstance(n, ast.Name)}
+        if mentions(val_side, {'man'}) and mentions(cand_side, udigits) and not mentions(val_side, udigits):
+            return 'exact comparison with the decimal that the upper bound reached'
+        return None
+
     def analyse(self, f, top=True):
         """abstractly execute the body once (loops once); returns (certified, reason)"""
         env = {}
@@ -550,7 +617,7 @@ class DigitFlow(object):
                 elif isinstance(st, ast.If):
                     body_has_break = any(isinstance(x, ast.Break) for x in st.body)
                     if body_has_break:
-                        c = self.certifies(st.test, env, self.kind)
+                        c = self.certifies(st.test, env, self.kind) or self.exact_choice(st, env)
                         if c:
                             pending.append((c, st))
                         else:
@@ -570,6 +637,13 @@ class DigitFlow(object):
                     block(st.body, guards)
                     mine = pending[mark:]
                     del pending[mark:]
+                    if mine and all(c for c, _ in mine) and any(c == 'enclosure' for c, _ in mine) \
+                            and isinstance(st.test, ast.Constant) and not any('exact comparison' in c for c, _ in mine) \
+                            and any(self.kind_is_bound(k) for k in env.values()):
+                        # an enclosure loop that can only be left when both ends agree never ends for a value that
+                        # IS a decimal with fewer digits than requested (lower end ...999, upper end ...000 at
+                        # every precision)
+                        problems.append((mine[0][1], mine[0][1].test, 'enclosure loop without an exact exit'))
                     if mine and all(c for c, _ in mine):
                         # the loop is left only under lower == upper: the bounds ARE the value
                         for nm, k in list(env.items()):
@@ -616,6 +690,14 @@ def check_digit_exactness(run, ix):
         run.ok('W-R5', 'to_digits_exp: the digits it returns are those of the exact value')
     elif all(df.summaries.values()) or not df.summaries:
         st, x, k = why
+        if k == 'enclosure loop without an exact exit':
+            run.fail(F('W-R5', LIBMPF, f.qualname, st,
+                       'the enclosure loop can only be left when both ends of the enclosure give the same digits '
+                       '(`%s`): for a value that IS a decimal with fewer digits than requested the lower end is '
+                       'always just below it and the upper end on it, so the precision doubles forever and no '
+                       'literal is produced (repr(mpf(2)**3600) at mp.dps = 1100); an exit that compares the value '
+                       'exactly with the decimal reached is missing' % norm(x)))
+            return
         run.fail(F('W-R5', LIBMPF, f.qualname, st,
                    '`%s` depends on %s and reaches the caller without an enclosure (floor/ceiling pair accepted '
                    'under equality), a neighbour probe or an exactness guard: to_str rounds on a digit that may '
@@ -630,3 +712,42 @@ def describe_kind(k):
     if isinstance(k, tuple) and k[0] in ('T0', 'T1'):
         return 'a fixed-point number truncated by to_fixed' + ('' if k[1] == 'E' else ' of an inexact value')
     return str(k)
+
+
+# --------------------------------------------------------------------------- W-R6
+def check_numeral_size_hint(run, ix):
+    """W-R6.  numeral_python converts short integers with str(), which the interpreter refuses beyond 4300 digits,
+    and decides "short" from a size HINT supplied by the caller (to_str passes the number of digits it wants, not
+    the length of the integer).  Before the small path is taken the hint must therefore be corrected from the bit
+    length of n, with a threshold that keeps every integer reaching str() below the limit:
+    `if bitcount(n) > B: size = max(size, ...)` with B * log10(2) < 4300."""
+    run.rule('W-R6', floor=1, desc='numeral_python corrects its size hint from the bit length before using str()')
+    rel = 'mpmath/libmp/libintmath.py'
+    f = ix.func(rel, 'numeral_python')
+    small = [x for x in f.node.body if isinstance(x, ast.If) and any(isinstance(c, ast.Call) and norm(c.func) == 'small_numeral'
+                                                                    for c in ast.walk(x))]
+    if not small:
+        raise AnalysisError('numeral_python: small path not found')
+    i = f.node.body.index(small[0])
+    fix = None
+    for st in f.node.body[:i]:
+        if isinstance(st, ast.If) and isinstance(st.test, ast.Compare) and isinstance(st.test.ops[0], (ast.Gt, ast.GtE)) \
+                and isinstance(st.test.comparators[0], ast.Constant):
+            left = norm(st.test.left)
+            defs = {norm(a.targets[0]): norm(a.value) for a in f.node.body[:i] if isinstance(a, ast.Assign)}
+            if 'bitcount' in left or 'bitcount' in defs.get(left, ''):
+                grows = any(isinstance(a, ast.Assign) and norm(a.targets[0]) == 'size' and 'max(size' in norm(a.value)
+                            for a in st.body)
+                if grows:
+                    fix = st
+    if fix is None:
+        run.fail(F('W-R6', rel, 'numeral_python', small[0].test, 'the small path (str(n)) is chosen from the caller\'s size hint '
+                   'alone: to_str passes the requested digit count, so an integer of more than 4300 digits announced as '
+                   'short reaches str() and the interpreter raises ValueError (nstr(mpf(\'0.1\'), 6) at mp.dps = 5000)'))
+        return
+    bits = fix.test.comparators[0].value
+    if bits * 0.30103 < 4300 - 250:
+        run.ok('W-R6', 'numeral_python: size hint raised to the true length above %d bits (%d digits)' % (bits, bits * 0.30103))
+    else:
+        run.fail(F('W-R6', rel, 'numeral_python', fix.test, 'the size hint is corrected only above %d bits = %d digits, '
+                   'beyond the 4300 digits str() accepts' % (bits, bits * 0.30103)))
